@@ -66,9 +66,17 @@ func gen(c *hmain.Ctx) {
 		add(f.Stream, f.Opts, f.N)
 	}
 	jobs = append(jobs, pipedrv.DirectedStops(c.Scale)...)
+	// REAL holding plugins (join, join_template, the k8s multiline action) as one action of the chain: every older family
+	// drives scripted actions that follow the hold / propagate protocol by construction, so a real plugin that breaks it - e.g.
+	// answers Discard while it still holds the first event of a run: the processor clears the busy mark, stops waiting on the
+	// stream, the held event is never flushed and later events overtake it (seed C02 round 5) - was invisible here.  Monitor 17
+	// (the hold ledger of Model/PipeGlue.v) and the processor LTS judge the processors' own labels of these runs (generated
+	// last: the draws of the older families do not move)
+	jobs = append(jobs, pipedrv.RealJobs(c.R, c.Scale, 36, 14, 10)...)
 	pipedrv.RunJobs(jobs, 40)
 	for _, j := range jobs {
 		pipedrv.Stats(c.W.Count, j)
+		pipedrv.RealStats(c.W.Count, j)
 		c.W.Case(j.Stream, 0, j.Case, j.Obs, true)
 	}
 }
@@ -76,6 +84,6 @@ func gen(c *hmain.Ctx) {
 func main() {
 	pipedrv.UseProductionNodePool()
 	hmain.Run(&hmain.Prop{ID: "C02",
-		Rule: "each case = (pipeline config: processors, pool kind/capacity, event time-out, action count, output kind/workers/batch size/retry/dead queue; per-source feeder scripts of JSON events whose 'ops' field scripts every action: pass/discard/hold/continue/break/split; send delay/failure plan) run on the real pipeline; observable = label trace of streams, processors, finalize, batchers. Threshold-crossing families: capacity-1, slow-flush (flush >= 100 ms), hold-slow (event time-out > 200 ms), recycle (feeder op 6: pads up to 64 KiB / > 64 JSON nodes; op 'g' grows Buf; 4th case element = (avgEventSize retentionMs multiplierPercent maintenanceMs)), split-fan (0-14 children with their own ops), retry-backoff, maintenance; directed expand-procs / stale-unblock-slow. Coverage families (notes/coverage): in-variety (ext's 6th element = ((key value) ...) options of pipedrv.xopts: decoder raw / cri / auto / suggested, MaxEventSize drop / cut-off, antispam threshold, meta data, source-name meta field, saved stream offsets; empty records, non-CRI lines), match-variety (match modes or / and_prefix / or_prefix / do_if / invert, metric options), file-commit (InputPlugin.Commit handed to the real file-input jobProvider.commit: labels 118 / 119), early-stop (Pipeline.Stop with events in flight, random and directed stop-while-held; feeder op 7 asks for the stop; labels 116 / 120), batch-bytes (BatchSizeBytes). Every case is non-trivial (>= 3 events); distinct = distinct case text.",
+		Rule: "each case = (pipeline config: processors, pool kind/capacity, event time-out, action count, output kind/workers/batch size/retry/dead queue; per-source feeder scripts of JSON events whose 'ops' field scripts every action: pass/discard/hold/continue/break/split; send delay/failure plan) run on the real pipeline; observable = label trace of streams, processors, finalize, batchers. Threshold-crossing families: capacity-1, slow-flush (flush >= 100 ms), hold-slow (event time-out > 200 ms), recycle (feeder op 6: pads up to 64 KiB / > 64 JSON nodes; op 'g' grows Buf; 4th case element = (avgEventSize retentionMs multiplierPercent maintenanceMs)), split-fan (0-14 children with their own ops), retry-backoff, maintenance; directed expand-procs / stale-unblock-slow. Coverage families (notes/coverage): in-variety (ext's 6th element = ((key value) ...) options of pipedrv.xopts: decoder raw / cri / auto / suggested, MaxEventSize drop / cut-off, antispam threshold, meta data, source-name meta field, saved stream offsets; empty records, non-CRI lines), match-variety (match modes or / and_prefix / or_prefix / do_if / invert, metric options), file-commit (InputPlugin.Commit handed to the real file-input jobProvider.commit: labels 118 / 119), early-stop (Pipeline.Stop with events in flight, random and directed stop-while-held; feeder op 7 asks for the stop; labels 116 / 120), batch-bytes (BatchSizeBytes). Real holding actions (pipedrv/real.go, options 12-15: one action of the chain is the REAL join / join_template / k8s multiline plugin, created by its registered factory and run by the real processor; the other actions stay scripted): real-join, real-join-template, real-k8s-multiline with option variety (max_event_size small enough to be reached, negate, regexp pairs / templates, Settings.MaxEventSize and split_event_size for k8s), 1-8 processors, several sources and streams, pauses longer than event time-out + streamer heartbeat; directed real-join-overlimit (a continuation line past max_event_size, then a pause, then more lines). Every case is non-trivial (>= 3 events); distinct = distinct case text.",
 		Gen:  gen, Exec: func(which int, cs hx.Sx) hx.Sx { return pipedrv.RunCase(cs) }})
 }
